@@ -57,6 +57,25 @@
     html_favicon_url = "https://raw.githubusercontent.com/pest-parser/pest/master/pest-logo.svg"
 )]
 #![warn(missing_docs, rust_2018_idioms, unused_qualifications)]
+// Verification seam (off by default): with `--cfg pest_parser_pest_verif` the thread, lock, atomic
+// and channel primitives come from the `simstd` crate of the simulator instead of `std`.
+#[cfg(pest_parser_pest_verif)]
+use simstd::{
+    sync::{
+        atomic::{AtomicBool, Ordering},
+        mpsc::SyncSender as Sender,
+        Arc, Mutex,
+    },
+    thread::{self, JoinHandle},
+};
+#[cfg(pest_parser_pest_verif)]
+use std::{
+    collections::HashSet,
+    fs::File,
+    io::{self, Read},
+    path::Path,
+};
+#[cfg(not(pest_parser_pest_verif))]
 use std::{
     collections::HashSet,
     fs::File,
